@@ -69,6 +69,7 @@ class HarnessResult:
         self.stats = {}
         self.covers_named = []
         self.cbmc_verdict = None
+        self.unwind = None
 
     @property
     def short(self):
@@ -359,6 +360,7 @@ def run_one(hm, solver, timeout_s, work_dir, fs_array, mem_kb=MEM_KB):
             h.note = "goto step failed: %s: %s" % (st[0], p.stdout[-300:])
             return h
     unwind = hm["attributes"].get("unwind_value")
+    h.unwind = unwind
     cmd = ["cbmc"] + CBMC_BASE
     if unwind is not None:
         cmd += ["--unwind", str(unwind)]
@@ -835,13 +837,14 @@ def write_evidence(prop, tier, seed, cfg, results, verdicts, fns, wall, nviol, k
             "symex_s": st.get("runtime_symex_s"),
             "solver_s": round(ss, 3),
             "vccs": st.get("vccs_generated"),
-            "bounds": P.bounds_of(prop, h.short),
+            "bounds": dict(P.bounds_of(prop, h.short), unwind=h.unwind, unwinding_assertions=True),
             "note": h.note,
         })
     mir_q = (mir or {}).get("queries", [])
     evaluations = len(hs) + len(mir_q)
-    distinct = nontrivial + sum(1 for q in mir_q if q.get("result") in ("unsat", "holds"))
-    samples = [{"harness": x["harness"], "bounds": x["bounds"], "verdict": x["verdict"]} for x in hs[:6]]
+    distinct = nontrivial + sum(1 for q in mir_q if q.get("result") in ("unsat", "holds") and "feasible=unsat" not in (q.get("detail") or ""))
+    samples = [{"harness": x["harness"], "bounds": x["bounds"], "verdict": x["verdict"], "back_end": x["solver"],
+                "checks": x["checks_total"]} for x in hs[:6]]
     samples += [{"smt_query": q.get("name"), "result": q.get("result")} for q in mir_q[:4]]
     ev = {
         "property_id": prop,
@@ -858,7 +861,7 @@ def write_evidence(prop, tier, seed, cfg, results, verdicts, fns, wall, nviol, k
                     "Harness names are unique, so distinct == counted.",
             "samples": samples or [{"note": "no harness ran"}],
             "exhaustive": False,
-            "explanation": cfg.get("explanation", ""),
+            "explanation": cfg.get("explanation") or cfg.get("level_text", ""),
             "technique": "bounded model checking of the compiled crate (Kani 0.68 / CBMC 6.11; SAT: cadical, SMT: z3) "
                          + ("+ MIR->SMT-LIB2 translation (z3, cvc5 cross-check)" if cfg.get("mir") else ""),
             "harnesses": hs,
